@@ -101,12 +101,12 @@ def gen_case(rng):
     if not closer and rng.random() < 0.06:
         # a line that cannot be part of a metadata block ends it without a blank line; what follows is body, even when it is spelled 'key: text'
         term = 'ender'
-        ender = rng.choice(['***', '=====', '* * *', '```'])
+        ender = rng.choice(['***', '=====', '* * *', '```', '<!--'])
     c.term = term
     c.yaml = yaml
     c.eol = eol
     if term == 'ender':
-        c.body = (ender + '\nFoo: looks like meta w915\nmore w916\n' + ('```\n' if ender == '```' else '')).replace('\n', eol)
+        c.body = (ender + '\nFoo: looks like meta w915\nmore w916\n' + ('```\n' if ender == '```' else ('-->\n' if ender == '<!--' else ''))).replace('\n', eol)
         c.block_bytes = (block + eol).encode('utf-8')
         c.src = c.block_bytes + c.body.encode('utf-8')
         c.sep = b''
@@ -335,7 +335,8 @@ def work(job):
 
 
 NOT_METADATA = [b'Title:\nAuthor: x\n\nbody\n', b'Title: \nAuthor: x\n\nbody\n', b'Key:\n', b'Key:\n\nbody w1\n', b'Title:\n    continued\n\nbody\n', b'http://example.com/: x\n\nbody\n',
-                b'no colon here\nTitle: x\n\nbody\n', b'\nTitle: x\n\nbody\n']
+                b'no colon here\nTitle: x\n\nbody\n', b'\nTitle: x\n\nbody\n',
+                b'---\nplain text\nNote: this is body\n\nBody\n', b'---\n\nTitle: x\n\nbody\n', b'---\n***\nFoo: bar\n']          # a first line of dashes opens metadata only when a key follows
 
 
 def work_negative(job):
